@@ -202,10 +202,21 @@ func typeName(t *parser.Type) string {
 	}
 
 	name := t.Name
+	cppType := ""
+	if t.CppType != "" {
+		cppType = " cpp_type " + joinQuotes(t.CppType)
+	}
 	if t.KeyType != nil && t.ValueType != nil {
-		name = fmt.Sprintf("%s<%s,%s>", t.Name, typeName(t.KeyType), typeName(t.ValueType))
+		// MAP CppType? '<' key ',' value '>'
+		name = fmt.Sprintf("%s%s<%s,%s>", t.Name, cppType, typeName(t.KeyType), typeName(t.ValueType))
 	} else if t.ValueType != nil && t.KeyType == nil {
-		name = fmt.Sprintf("%s<%s>", t.Name, typeName(t.ValueType))
+		if t.Name == "list" {
+			// LIST '<' elem '>' CppType?
+			name = fmt.Sprintf("%s<%s>%s", t.Name, typeName(t.ValueType), cppType)
+		} else {
+			// SET CppType? '<' elem '>'
+			name = fmt.Sprintf("%s%s<%s>", t.Name, cppType, typeName(t.ValueType))
+		}
 	}
 
 	if t.Annotations != nil {
